@@ -10,6 +10,8 @@
  * names drawn from {a, ab, b, ba} so that names repeat, nest inside themselves and are prefixes of one another; root body
  * <= 14 bytes.  Environment stubs: malloc allocator, an error slot, no logger.
  * Output protocol of the driver: "CASES n", "FAIL ..." lines; exit 1 when a case failed.
+ * An attribute pass runs <a k..=v..><b k..=v..>t</b></a> with 0..10 attributes on each element (exact count, names, values;
+ * values with and without quotes) and 11 attributes (must be refused).
  * A second pass adds self-closing elements (<a/>); they are outside the stated dialect, deviations are printed as NOTE. */
 #include <aws/common/byte_buf.h>
 #include <aws/common/xml_parser.h>
@@ -182,10 +184,55 @@ static void enumerate(int ntok, int with_self) {
     }
 }
 
+
+/* ---------------- attribute pass: 0..10 attributes on the root and on a child, exact names and values; 11 must be refused ---------------- */
+static int s_attr_n[2], s_attr_bad;
+static int on_attr_node(struct aws_xml_node *node, void *ud) {
+    int which = (int)(size_t)ud;
+    size_t n = aws_xml_node_get_num_attributes(node);
+    if ((int)n != s_attr_n[which]) { s_attr_bad = 1; printf("FAIL attribute pass: element %d reports %zu attributes, document has %d\n", which, n, s_attr_n[which]); fflush(stdout); }
+    for (size_t i = 0; i < n && i < 10; ++i) {
+        struct aws_xml_attribute a = aws_xml_node_get_attribute(node, i);
+        char kn[8], vn[8];
+        snprintf(kn, sizeof kn, "k%d%zu", which, i);
+        snprintf(vn, sizeof vn, "v%zu", i);
+        if (!aws_byte_cursor_eq_c_str(&a.name, kn) || !aws_byte_cursor_eq_c_str(&a.value, vn)) {
+            s_attr_bad = 1;
+            printf("FAIL attribute pass: attribute %zu of element %d is %.*s=%.*s, expected %s=%s\n", i, which, (int)a.name.len, a.name.ptr, (int)a.value.len, a.value.ptr, kn, vn);
+            fflush(stdout);
+        }
+    }
+    if (which == 0) return aws_xml_node_traverse(node, on_attr_node, (void *)(size_t)1);
+    return AWS_OP_SUCCESS;
+}
+static void attribute_pass(void) {
+    for (int n0 = 0; n0 <= 11; ++n0) for (int n1 = 0; n1 <= 11; ++n1) {
+        if (n0 == 11 && n1 != 0) continue;
+        char d[600]; size_t len = 0;
+        len += (size_t)snprintf(d + len, sizeof d - len, "<a");
+        for (int i = 0; i < n0; ++i) len += (size_t)snprintf(d + len, sizeof d - len, i % 2 ? " k0%d=\"v%d\"" : " k0%d=v%d", i, i);
+        len += (size_t)snprintf(d + len, sizeof d - len, "><b");
+        for (int i = 0; i < n1; ++i) len += (size_t)snprintf(d + len, sizeof d - len, i % 2 ? " k1%d=v%d" : " k1%d=\"v%d\"", i, i);
+        len += (size_t)snprintf(d + len, sizeof d - len, ">t</b></a>");
+        char *exact = malloc(len); memcpy(exact, d, len);
+        s_attr_n[0] = n0; s_attr_n[1] = n1; s_attr_bad = 0;
+        struct aws_xml_parser_options o = {.doc = aws_byte_cursor_from_array(exact, len), .on_root_encountered = on_attr_node, .user_data = (void *)0};
+        s_last_error = 0;
+        int rc = aws_xml_parse(&s_alloc, &o);
+        int over = n0 > 10 || n1 > 10;
+        n_cases++;
+        if (!over && rc != AWS_OP_SUCCESS) { s_attr_bad = 1; printf("FAIL attribute pass: document with %d/%d attributes rejected (rc=%d err=%d)\n", n0, n1, rc, s_last_error); }
+        if (over && rc == AWS_OP_SUCCESS) { s_attr_bad = 1; printf("FAIL attribute pass: document with %d/%d attributes (limit 10) accepted instead of rejected\n", n0, n1); }
+        if (s_attr_bad) n_fail++;
+        free(exact);
+    }
+}
+
 int main(void) {
     for (int n = 2; n <= NTOK; ++n) enumerate(n, 0);
     unsigned long base_cases = n_cases;
     for (int n = 3; n <= 6; ++n) enumerate(n, 1);
+    attribute_pass();
     printf("explicit-tag dialect: %lu (document, program) cases, %lu failed in %lu distinct documents; self-closing pass: %lu cases, %lu deviations\n",
            base_cases, n_fail, n_fail_docs, n_cases - base_cases, n_note);
     printf("CASES %lu\n", n_cases);
